@@ -43,8 +43,8 @@ theorem body_eq {H : Type} (u : Nat) (decKey : H → Nat → Array NodeK → H) 
   unfold dijkstra_relax_body1 stepG
   rfl
 
-/-- the heap operation of the model: `decreaseKey` reads the new key from the node (`v->d`) -/
-def decKeyM (h : PTree Dist) (v : Nat) (vs : Array NodeK) : PTree Dist := decreaseKey ltDist h v (aget vs v).d
+/-- `decKeyM` (Gen/KeysShortest.lean): `decreaseKey` reads the new key from the node (`v->d`) -/
+theorem decKeyM_eq (h : PTree Dist) (v : Nat) (vs : Array NodeK) : decKeyM h v vs = decreaseKey ltDist h v (aget vs v).d := rfl
 
 /-- projection of the generated state to the model's `(d, heap)` -/
 def proj (s : PTree Dist × Array NodeK) : Vec × PTree Dist := (dOf s.2, s.1)
@@ -61,7 +61,7 @@ theorem step_proj (u : Nat) (s : PTree Dist × Array NodeK) (v : Nat) (w : Rat) 
     unfold stepG
     simp only [hc]
     by_cases hg : gtD (aget s.2 v).d (a + w) = true
-    · simp only [hg, if_true, hu, oadd, dOf_aset, decKeyM]
+    · simp only [hg, if_true, hu, oadd, dOf_aset, decKeyM_eq]
       rw [aget_aset_eq _ _ _ hv]
     · simp only [hg, if_false, Bool.false_eq_true]
 
